@@ -25,7 +25,29 @@ struct Obj {
     h: f32,
     angle: Option<f32>,
     cid: i64,
+    /// appearance family (0 = the object never shows a feature); objects of one family look alike
+    fam: usize,
 }
+
+/// Feature symbols of the free-world visual runs: three families of look-alike appearances.  Euclidean: points whose
+/// pairwise distances stay clear of the threshold 2.8; cosine: unit vectors whose similarities stay clear of 0.85.
+pub fn vis_symbols(cosine: bool) -> Vec<Vec<f32>> {
+    if cosine {
+        [0.0f32, 10.0, 20.0, 90.0, 100.0, 115.0, 45.0].iter().map(|d| vec![d.to_radians().cos(), d.to_radians().sin()]).collect()
+    } else {
+        vec![vec![0.0, 0.0], vec![1.0, 0.0], vec![0.0, 2.0], vec![10.0, 10.0], vec![11.0, 10.0], vec![10.0, 12.5], vec![2.5, 0.0]]
+    }
+}
+/// symbols (1-based) of a family: 1 = {1,2,3}, 2 = {4,5,6}, 3 = {7} (close to some of family 1, far from others)
+fn family_symbols(fam: usize) -> &'static [usize] {
+    match fam {
+        1 => &[1, 2, 3],
+        2 => &[4, 5, 6],
+        3 => &[7],
+        _ => &[],
+    }
+}
+pub const QUALITIES: [f32; 5] = [0.3, 0.55, 0.7, 0.8, 0.9];
 
 pub struct World {
     spread: f32,
@@ -34,6 +56,8 @@ pub struct World {
     rng: StdRng,
     miss: f64,
     jitter: f32,
+    /// Some(cosine?) = detections carry appearance features
+    pub features: Option<bool>,
 }
 
 impl World {
@@ -63,11 +87,12 @@ impl World {
                     h: rng.gen_range(50.0..90.0),
                     angle: if rotated && k % 2 == 1 { Some(rng.gen_range(-1.5..1.5)) } else { None },
                     cid: (*s as i64) * 100 + k as i64 + 1,
+                    fam: [1usize, 1, 2, 3, 0, 2][k % 6],
                 });
             }
             sc.push((*s, objs));
         }
-        World { spread, fast, scenes: sc, rng, miss: 0.15, jitter: 1.0 }
+        World { spread, fast, scenes: sc, rng, miss: 0.15, jitter: 1.0, features: None }
     }
 
     /// advances the objects of one scene and returns the detections (shuffled, with misses)
@@ -86,6 +111,13 @@ impl World {
                 self.rng.gen_range(0.45..1.0f32),
                 self.rng.gen_bool(miss),
             );
+            // appearance draws (only in runs with features, so that the other runs keep their random streams)
+            let features = self.features;
+            let (fr, fs, fq) = if features.is_some() {
+                (self.rng.gen_bool(0.85), self.rng.gen_range(0..6usize), self.rng.gen_range(0..QUALITIES.len()))
+            } else {
+                (false, 0, 0)
+            };
             let grow = self.fast && self.rng.gen_bool(0.3);
             let up = self.rng.gen_bool(0.5);
             let o = &mut self.scenes[idx].1[k];
@@ -110,7 +142,16 @@ impl World {
             }
             let h = (o.h + jw).max(10.0);
             let b = Universal2DBox::new_with_confidence(o.x + jx, o.y + jy, o.angle, o.w / o.h, h, c);
-            dets.push(Det { bbox: b, cid: Some(o.cid), feature: None, quality: None });
+            let fam = o.fam;
+            let (feature, quality) = match features {
+                Some(cosine) if fam > 0 && fr => {
+                    let syms = family_symbols(fam);
+                    let sym = syms[fs % syms.len()];
+                    (Some(vis_symbols(cosine)[sym - 1].clone()), Some(QUALITIES[fq]))
+                }
+                _ => (None, None),
+            };
+            dets.push(Det { bbox: b, cid: Some(o.cid), feature, quality });
         }
         dets.shuffle(&mut self.rng);
         dets
@@ -182,6 +223,22 @@ pub struct Recorder {
     pub cfg: Cfg,
     pub drv: Box<dyn Drv>,
     pub lines: Vec<Value>,
+    /// Some(symbol table) = appearance features are logged for spec/tracker/VisualTrace.tla
+    pub vis: Option<Vec<Vec<f32>>>,
+}
+
+fn symbol_of(table: &[Vec<f32>], f: &Option<Vec<f32>>) -> i64 {
+    match f {
+        None => 0,
+        Some(v) => table.iter().position(|s| v.len() >= 2 && s[0] == v[0] && s[1] == v[1] && v[2..].iter().all(|x| *x == 0.0)).map(|p| p as i64 + 1).unwrap_or(99),
+    }
+}
+fn qmilli(q: f32) -> i64 {
+    (q as f64 * 1000.0).round() as i64
+}
+fn gallery_json(table: &[Vec<f32>], t: &TrackView) -> Value {
+    let g: Vec<Value> = t.gallery.as_ref().map(|g| g.iter().map(|(f, q)| json!([symbol_of(table, f), qmilli(*q)])).collect()).unwrap_or_default();
+    json!([t.id, t.collected.unwrap_or(0), g])
 }
 
 impl Recorder {
@@ -200,7 +257,29 @@ impl Recorder {
         let header = json!({"ev": "config", "max_idle": cfg.max_idle, "thr": thr, "margin": margin, "cons": cons, "eps": 3,
                             "kind": cfg.kind, "shards": cfg.shards});
         let drv = cfg.build();
-        Recorder { cfg, drv, lines: vec![header] }
+        Recorder { cfg, drv, lines: vec![header], vis: None }
+    }
+
+    /// switches the logging of appearance features on (VisualSort kinds): the configuration line gets the record "v"
+    pub fn with_features(mut self) -> Recorder {
+        use similari::distance::{cosine, euclidean};
+        use similari::track::utils::FromVec;
+        use similari::track::Feature;
+        let cos = matches!(self.cfg.vis_metric, VisualSortMetricType::Cosine(_));
+        let table = vis_symbols(cos);
+        let feats: Vec<Feature> = table.iter().map(|v| Feature::from_vec(v.clone())).collect();
+        let dist: Vec<Vec<i64>> = feats
+            .iter()
+            .map(|a| feats.iter().map(|b| ((if cos { cosine(a, b) } else { euclidean(a, b) }) as f64 * 1000.0).round() as i64).collect())
+            .collect();
+        let c = &self.cfg;
+        self.lines[0]["vis"] = json!(1);
+        self.lines[0]["v"] = json!({"kind": if cos { "cosine" } else { "euclid" }, "thr": qmilli(c.vis_metric.threshold()), "dist": dist,
+            "minvotes": c.min_votes, "mintracklen": c.min_track_len, "maxobs": c.max_obs, "quse": qmilli(c.q_use), "qcollect": qmilli(c.q_collect),
+            "minarea": c.min_area as i64, "ownuse": (c.own_use as f64 * 10000.0).round() as i64, "owncollect": (c.own_collect as f64 * 10000.0).round() as i64,
+            "wmargin": 12, "qeps": 2, "aeps": 3, "seps": 40, "deps": 30});
+        self.vis = Some(table);
+        self
     }
 
     pub fn predict(&mut self, scene: u64, dets: &[Det]) {
@@ -236,6 +315,26 @@ impl Recorder {
             w.push(json!(row));
             c.push(json!(crow));
         }
+        // appearance part of the call (VisualTrace.tla): symbols, qualities, areas, exclusively-owned shares of the detections
+        // and the galleries of the scene's stored tracks before the call
+        let vis_pre = self.vis.as_ref().map(|table| {
+            let own_on = self.cfg.own_use + self.cfg.own_collect > 0.0;
+            let shares: Vec<i64> = if own_on {
+                use similari::utils::clipping::bbox_own_areas::{exclusively_owned_areas, exclusively_owned_areas_normalized_shares};
+                let boxes: Vec<&Universal2DBox> = dets.iter().map(|d| &d.bbox).collect();
+                let areas = exclusively_owned_areas(&boxes);
+                exclusively_owned_areas_normalized_shares(&boxes, &areas).iter().map(|s| (*s as f64 * 10000.0).round() as i64).collect()
+            } else {
+                dets.iter().map(|_| -1).collect()
+            };
+            json!({
+                "f": dets.iter().map(|d| symbol_of(table, &d.feature)).collect::<Vec<_>>(),
+                "q": dets.iter().map(|d| qmilli(d.quality.unwrap_or(1.0))).collect::<Vec<_>>(),
+                "area": dets.iter().map(|d| d.bbox.area() as i64).collect::<Vec<_>>(),
+                "share": shares,
+                "g": main.iter().filter(|t| t.scene == scene).map(|t| gallery_json(table, t)).collect::<Vec<_>>(),
+            })
+        });
         let recs = self.drv.predict(scene, dets);
         let echo_ok = recs.len() == dets.len()
             && recs.iter().zip(dets.iter()).all(|(r, d)| bits(&r.obs) == bits(&d.bbox) && r.obs.confidence == d.bbox.confidence && r.cid == d.cid && r.scene == scene);
@@ -248,6 +347,16 @@ impl Recorder {
             "boxes": dets.iter().map(|d| bits(&d.bbox)).collect::<Vec<_>>(),
             "echo": if echo_ok { 1 } else { 0 },
             "main": ids_of(&self.drv.content(false)), "coll": ids_of(&self.drv.content(true))}));
+        if let (Some(table), Some(pre)) = (self.vis.as_ref(), vis_pre) {
+            let after = self.drv.content(false);
+            let g2: Vec<Value> = recs.iter().map(|r| after.iter().find(|t| t.id == r.id).map(|t| gallery_json(table, t)).unwrap_or(json!([r.id, -1, []]))).collect();
+            let line = self.lines.last_mut().unwrap();
+            for k in ["f", "q", "area", "share", "g"] {
+                line[k] = pre[k].clone();
+            }
+            line["vt"] = json!(recs.iter().map(|r| if r.visual { 1 } else { 0 }).collect::<Vec<_>>());
+            line["g2"] = json!(g2);
+        }
     }
     pub fn skip(&mut self, scene: u64, n: usize) {
         self.drv.skip(scene, n);
@@ -295,9 +404,10 @@ pub enum Call {
     SetAw(usize),
 }
 
-pub fn history(seed: u64, steps: usize, scenes: &[u64], nobj: usize, rotated: bool, lifecycle: bool, spread: f32, crafted: bool, jump: f32) -> Vec<Call> {
+pub fn history(seed: u64, steps: usize, scenes: &[u64], nobj: usize, rotated: bool, lifecycle: bool, spread: f32, crafted: bool, jump: f32, features: Option<bool>) -> Vec<Call> {
     // jump: 0 = slow objects; k > 0 = fast objects (8..28 px per step, times k) that also change size abruptly
     let mut world = World::new(seed, scenes, nobj, rotated, spread, jump);
+    world.features = features;
     let mut rng = StdRng::seed_from_u64(seed ^ 0x5eed);
     let mut calls = vec![];
     let mut crafted_k = 0usize;
@@ -414,7 +524,8 @@ pub fn main(opts: &Opts) {
     let steps = opts.usize("steps", 120);
     let scenes: Vec<u64> = opts.str("scenes", "0,7").split(',').map(|x| x.parse().unwrap()).collect();
     let nobj = opts.usize("objects", 3);
-    let calls = history(seed, steps, &scenes, nobj, opts.get("rotated").is_some(), opts.get("no-lifecycle").is_none(), opts.f64("spread", 160.0) as f32, opts.get("crafted").is_some(), opts.f64("jump", 0.0) as f32);
+    let calls = history(seed, steps, &scenes, nobj, opts.get("rotated").is_some(), opts.get("no-lifecycle").is_none(), opts.f64("spread", 160.0) as f32, opts.get("crafted").is_some(), opts.f64("jump", 0.0) as f32,
+                        opts.get("features").map(|_| matches!(cfg.vis_metric, VisualSortMetricType::Cosine(_))));
     let mut calls = calls;
     if let Some(ps) = opts.get("pre-skip") {
         // "scene:n": the scene is skipped ahead by n epochs before anything else happens (one scene far ahead of the others)
@@ -429,7 +540,7 @@ pub fn main(opts: &Opts) {
     } else {
         None
     };
-    let mut rec = Recorder::new(cfg);
+    let mut rec = if opts.get("features").is_some() { Recorder::new(cfg).with_features() } else { Recorder::new(cfg) };
     if let Some(p) = opts.get("aw") {
         // collection periodicity set at the start of the run (the counter is shared by all scenes)
         rec.set_aw(p.parse().unwrap());
